@@ -2,6 +2,7 @@ package core
 
 import (
 	"fmt"
+	"sort"
 
 	"github.com/jsightapi/jsight-api-core/directive"
 	"github.com/jsightapi/jsight-api-core/jerr"
@@ -45,8 +46,55 @@ func (core *JApiCore) addMacro(d *directive.Directive) *jerr.JApiError {
 }
 
 func (core *JApiCore) checkMacroForRecursion() *jerr.JApiError {
-	for macroName, macro := range core.macro {
-		if je := findPaste(macroName, macro); je != nil {
+	// Iterate in a stable order: which of several recursive macros gets reported must not depend on map order.
+	names := make([]string, 0, len(core.macro))
+	for macroName := range core.macro {
+		names = append(names, macroName)
+	}
+	sort.Strings(names)
+
+	for _, macroName := range names {
+		if je := findPaste(macroName, core.macro[macroName]); je != nil {
+			return je
+		}
+	}
+
+	checked := make(map[string]struct{}, len(names))
+	for _, macroName := range names {
+		stack := map[string]struct{}{macroName: {}}
+		if je := core.findIndirectPaste(core.macro[macroName], stack, checked); je != nil {
+			return je
+		}
+		checked[macroName] = struct{}{}
+	}
+	return nil
+}
+
+// findIndirectPaste looks for a chain of PASTE directives which leads back to a macro that is being expanded
+// (a recursion through two or more macros). Macros from the "checked" set are known to be free of recursion.
+func (core *JApiCore) findIndirectPaste(
+	d *directive.Directive,
+	stack map[string]struct{},
+	checked map[string]struct{},
+) *jerr.JApiError {
+	if d.Type() == directive.Paste {
+		name := d.NamedParameter("Name")
+		if _, ok := stack[name]; ok {
+			return d.KeywordError(jerr.RecursionIsProhibited)
+		}
+		if _, ok := checked[name]; ok {
+			return nil
+		}
+		macro, ok := core.macro[name]
+		if !ok {
+			return nil // An unknown macro is reported when the PASTE gets processed.
+		}
+		stack[name] = struct{}{}
+		defer delete(stack, name)
+		d = macro
+	}
+	for _, c := range d.Children {
+		if je := core.findIndirectPaste(c, stack, checked); je != nil {
 			return je
 		}
 	}
